@@ -15,7 +15,7 @@ variable {V : Type}
 /-- the six `NewFunc` signature forms -/
 inductive Form
   | f00   -- func(vm)                      : nothing consumed, nothing pushed
-  | f01   -- func(vm) Value                : pushes one result
+  | f01   -- func(vm) Value                : drops argc unread, pushes one result
   | fN0   -- func(vm, args)                : consumes argc
   | fN1   -- func(vm, args) Value          : consumes argc, pushes one
   | fNM   -- func(vm, args) []Value        : consumes argc, pushes all results
@@ -32,7 +32,9 @@ structure Native (V : Type) where
 def adapter (n : Native V) (stack : List V) : Option (List V) :=
   match n.form with
   | .f00 => (n.body []).map fun _ => stack
-  | .f01 => (n.body []).map fun r => stack ++ r.take 1
+  | .f01 =>
+    let i := stack.length - n.argc                         -- (registered with an arity: the arguments are dropped)
+    (n.body []).map fun r => stack.take i ++ r.take 1
   | .fN0 =>
     let i := stack.length - n.argc
     (n.body (stack.drop i)).map fun _ => stack.take i
